@@ -22,19 +22,21 @@ Qed.
 (** ** the accepted constructs, checked while replaying the validator's height computation *)
 Definition ctl_ok (nl : Z) (cx : cctx) (v : vstate) (op : opcode) : bool :=
   match op with
-  | OEnd =>     (* the end of a value-typed block must be reachable (its body does not end with a jump) *)
+  | OEnd => true
+  | OElse =>    (* the then-branch of a value-typed if must reach its else *)
       match v_ctrls v with
       | f :: _ => match vf_end f, v_unreach v with Some _, Some _ => false | _, _ => true end
       | [] => true
       end
-  | OElse => true
   | OBlock _ => match v_unreach v with None => (v_opds v =? 0)%nat | Some _ => false end
-  | OIf None => match v_unreach v with None => (v_opds v =? 1)%nat | Some _ => false end
+  | OIf _ => match v_unreach v with None => (v_opds v =? 1)%nat | Some _ => false end
   | OLoop None => match v_unreach v with None => (v_opds v =? 0)%nat | Some _ => false end
   | OBasic (BBr _) | OBasic BUnreachable => match v_unreach v with None => true | Some _ => false end
   | OBasic (BBrIf l) => match v_unreach v, label_type v l with None, Some None => true | _, _ => false end
   | OBasic BReturn => match v_unreach v, cx_return cx, last (map (fun f => Some (vf_label f)) (v_ctrls v)) None with
-                      | None, None, Some None => true | _, _, _ => false end
+                      | None, None, Some None => true
+                      | None, Some _, Some (Some _) => true      (* return with a value *)
+                      | _, _, _ => false end
   | OBasic b => match v_unreach v with None => straight_ok b && locals_in nl b | Some _ => false end
   | _ => false
   end.
@@ -192,6 +194,148 @@ Proof.
   - destruct bt; discriminate.
 Qed.
 
+(** ** the one syntactic restriction: an [if] with a result has an [else] (the validator rejects the
+    other form, the height-only replay of it used here does not) *)
+Fixpoint syn_i (i : instr) : bool :=
+  let sl := fix sl (l : list instr) : bool := match l with [] => true | x :: r => syn_i x && sl r end in
+  match i with
+  | Basic _ => true
+  | Block _ b | Loop _ b => sl b
+  | If bt t e => match bt, e with Some _, [] => false | _, _ => sl t && sl e end
+  end.
+Fixpoint syn (l : list instr) : bool := match l with [] => true | x :: r => syn_i x && syn r end.
+Lemma syn_block bt b : syn_i (Block bt b) = syn b. Proof. reflexivity. Qed.
+Lemma syn_loop bt b : syn_i (Loop bt b) = syn b. Proof. reflexivity. Qed.
+Lemma syn_if bt t e : syn_i (If bt t e) = match bt, e with Some _, [] => false | _, _ => syn t && syn e end.
+Proof. reflexivity. Qed.
+Lemma syn_app a b : syn (a ++ b) = syn a && syn b.
+Proof. induction a; cbn [app syn]; auto. rewrite IHa, andb_assoc. reflexivity. Qed.
+Lemma syn_cons i r : syn (i :: r) = true -> syn_i i = true /\ syn r = true.
+Proof. cbn [syn]. intros H. apply andb_true_iff in H. exact H. Qed.
+
+Lemma val_top_reachable nl cx s v locs r bp' op :
+  inv nl s v -> c_bp s = JUnknown locs (Some r) :: bp' -> op = OElse -> ctl_ok nl cx v op = true ->
+  v_unreach v = None.
+Proof.
+  intros I Ebp Hop Hk. pose proof (i_frames _ _ _ I) as Fr.
+  destruct (v_ctrls v) as [|f rr] eqn:Ec; [inversion Fr; subst; rewrite Ebp in *; discriminate|].
+  destruct (target_label_any _ _ _ _ O f _ _ Fr eq_refl ltac:(rewrite Ebp; reflexivity)) as (t0 & Fl & _).
+  destruct (frames_cons _ _ _ _ _ Fr) as (_ & Fe & _). rewrite Fl in Fe.
+  subst op; unfold ctl_ok in Hk; rewrite Ec, Fe in Hk; destruct (v_unreach v); auto; discriminate.
+Qed.
+
+(** ** the validation state alone: a terminated state only arises right after br / unreachable / return *)
+Definition vinv (v : vstate) : Prop :=
+  v_unreach v = None \/ (v_unreach v = Some (length (v_ctrls v) - 1)%nat /\ v_ctrls v <> []).
+Definition is_term (b : binstr) : bool := match b with BBr _ | BUnreachable | BReturn => true | _ => false end.
+
+Lemma pushn_unreach : forall n w, v_unreach (v_pushn n w) = v_unreach w.
+Proof. induction n; intros; cbn; auto. rewrite IHn. reflexivity. Qed.
+Lemma pop_unreach w w' : v_pop w = Some w' -> v_unreach w' = v_unreach w /\ v_ctrls w' = v_ctrls w.
+Proof.
+  unfold v_pop. destruct (v_ctrls w) eqn:E; [discriminate|].
+  destruct (v_opds w =? vf_height v)%nat; [destruct (vf_unreachable v)|]; intros E1; inversion E1; subst; cbn; auto.
+Qed.
+Lemma popn_unreach : forall n w w', v_popn n w = Some w' -> v_unreach w' = v_unreach w /\ v_ctrls w' = v_ctrls w.
+Proof.
+  induction n; intros w w' E; cbn in E; [inversion E; auto|].
+  destruct (v_pop w) eqn:E1; [|discriminate]. destruct (IHn _ _ E) as [A B]. destruct (pop_unreach _ _ E1) as [C D]. split; congruence.
+Qed.
+Lemma pop_ctrl_un v x : vinv v -> v_pop_ctrl v = Some x -> v_unreach (snd x) = None.
+Proof.
+  intros Hi H. unfold v_pop_ctrl in H. destruct (v_ctrls v) as [|f rest] eqn:Ec; [discriminate|].
+  destruct (v_popn (bt_arity (vf_end f)) v) as [w|] eqn:Ep; [|discriminate].
+  destruct (popn_unreach _ _ _ Ep) as [Eu _].
+  destruct (v_opds w =? vf_height f)%nat; [|discriminate]. inversion H; subst x; clear H. cbn [snd v_unreach].
+  rewrite Eu. destruct Hi as [->|[-> _]]; [reflexivity|]. rewrite Ec. cbn [length].
+  replace (S (length rest) - 1)%nat with (length rest) by lia. rewrite Nat.eqb_refl. reflexivity.
+Qed.
+Lemma mark_vinv w w' : v_unreach w = None -> v_mark_unreachable w = Some w' -> vinv w'.
+Proof.
+  intros Hu H. unfold v_mark_unreachable in H. destruct (v_ctrls w) as [|f rest]; [discriminate|]. rewrite Hu in H.
+  inversion H; subst. right. cbn. split; [f_equal; lia|discriminate].
+Qed.
+
+Lemma vinv_step nl cx v op v1 :
+  ctl_ok nl cx v op = true -> vstep cx v op = Some v1 -> vinv v ->
+  vinv v1 /\ (v_unreach v1 <> None -> exists b, op = OBasic b /\ is_term b = true).
+Proof.
+  intros Hk Hv Hi.
+  assert (Done : v_unreach v1 = None -> vinv v1 /\ (v_unreach v1 <> None -> exists b, op = OBasic b /\ is_term b = true)).
+  { intros E. split; [left; exact E|intros X; contradiction]. }
+  pose proof Hv as Hv0. destruct op as [| |bt|bt|bt|b]; cbn [vstep] in Hv.
+  - destruct (v_pop_ctrl v) as [[[res isif] v2]|] eqn:Ep; [|discriminate]. inversion Hv; subst. apply Done.
+    rewrite pushn_unreach. apply (pop_ctrl_un v _ Hi Ep).
+  - destruct (v_pop_ctrl v) as [[[res [|]] v2]|] eqn:Ep; try discriminate. inversion Hv; subst. apply Done. cbn.
+    apply (pop_ctrl_un v _ Hi Ep).
+  - unfold ctl_ok in Hk. destruct (v_unreach v) eqn:Hu; [discriminate|]. inversion Hv; subst. apply Done. exact Hu.
+  - unfold ctl_ok in Hk. destruct bt; [discriminate|]. destruct (v_unreach v) eqn:Hu; [discriminate|]. inversion Hv; subst. apply Done. exact Hu.
+  - unfold ctl_ok in Hk. destruct (v_unreach v) eqn:Hu; [discriminate|].
+    destruct (v_pop v) as [w|] eqn:Ep; [|discriminate]. inversion Hv; subst. apply Done. cbn. destruct (pop_unreach _ _ Ep) as [A _]. congruence.
+  - assert (Hu : v_unreach v = None).
+    { unfold ctl_ok in Hk. destruct (v_unreach v); [|reflexivity]. destruct b; discriminate. }
+    assert (Term : forall w, v_unreach w = None -> v_mark_unreachable w = Some v1 -> is_term b = true ->
+                     vinv v1 /\ (v_unreach v1 <> None -> exists b0, OBasic b = OBasic b0 /\ is_term b0 = true)).
+    { intros w Hw Hm Ht. split; [eapply mark_vinv; eauto|]. intros _. exists b. auto. }
+    assert (Hst : straight_ok b = true -> vinv v1 /\ (v_unreach v1 <> None -> exists b0, OBasic b = OBasic b0 /\ is_term b0 = true)).
+    { intros Hs. apply Done. exact (straight_vstep cx v b v1 (straight_ok_straight b Hs) Hu Hv0). }
+    clear Hv0.
+    destruct b; try (apply Hst; unfold ctl_ok in Hk; rewrite Hu in Hk; apply andb_true_iff in Hk; tauto); clear Hst.
+    + (* unreachable *) cbn [vstep] in Hv. eapply Term; eauto.
+    + (* br *) cbn [vstep] in Hv. match type of Hv with context [label_type v ?x] => destruct (label_type v x) as [lt|]; [|discriminate] end.
+      destruct (v_popn (bt_arity lt) v) as [w|] eqn:Ep; [|discriminate]. destruct (popn_unreach _ _ _ Ep) as [A _].
+      eapply (Term w); eauto. congruence.
+    + (* br_if *) cbn [vstep] in Hv. match type of Hv with context [label_type v ?x] => destruct (label_type v x) as [lt|]; [|discriminate] end.
+      destruct (v_pop v) as [w|] eqn:Ep; [|discriminate]. destruct (v_popn (bt_arity lt) w) as [w2|] eqn:Ep2; [|discriminate].
+      inversion Hv; subst. apply Done. rewrite pushn_unreach. destruct (popn_unreach _ _ _ Ep2) as [A _]. destruct (pop_unreach _ _ Ep) as [B _]. congruence.
+    + (* return *) cbn [vstep] in Hv. destruct (last (map (fun f => Some (vf_label f)) (v_ctrls v)) None) as [lt|].
+      * destruct (v_popn (bt_arity lt) v) as [w|] eqn:Ep; [|discriminate]. destruct (popn_unreach _ _ _ Ep) as [A _].
+        eapply (Term w); eauto. congruence.
+      * inversion Hv; subst. apply Done. exact Hu.
+Qed.
+
+Lemma term_last_ops nl cx : forall ops v s v' s',
+  compile_ops cx ops v s = Some (v', s') -> lvl nl cx ops v = true -> vinv v -> ops <> [] -> v_unreach v' <> None ->
+  exists pre b, ops = pre ++ [OBasic b] /\ is_term b = true.
+Proof.
+  induction ops as [|op r IH]; intros v s v' s' Hc Hl Hi Hne Hu; [contradiction|].
+  destruct (compile_cons _ _ _ _ _ _ _ Hc) as (v1 & s1 & Ev & Eh & Hc'). destruct (lvl_cons _ _ _ _ _ _ Hl Ev) as [Hk Hl'].
+  destruct (vinv_step nl cx v op v1 Hk Ev Hi) as [Hi1 Ht].
+  destruct r as [|op2 r'].
+  - cbn in Hc'. inversion Hc'; subst. destruct (Ht Hu) as (b & -> & Hb). exists [], b. auto.
+  - destruct (IH v1 s1 v' s' Hc' Hl' Hi1 ltac:(discriminate) Hu) as (pre & b & E & Hb). exists (op :: pre), b. rewrite E. auto.
+Qed.
+
+Lemma flatten_instr_last i : (exists b, i = Basic b) \/ exists front, flatten_instr i = front ++ [OEnd].
+Proof.
+  destruct i as [b|bt body|bt body|bt thn els].
+  - left. eauto.
+  - right. cbn. exists (OBlock bt :: flat_map flatten_instr body). reflexivity.
+  - right. cbn. exists (OLoop bt :: flat_map flatten_instr body). reflexivity.
+  - right. cbn. destruct els as [|e els].
+    + exists (OIf bt :: flat_map flatten_instr thn). rewrite app_comm_cons. reflexivity.
+    + exists (OIf bt :: flat_map flatten_instr thn ++ OElse :: flat_map flatten_instr (e :: els)).
+      cbn [app]. f_equal. rewrite <- app_assoc. cbn [app]. reflexivity.
+Qed.
+
+Lemma term_last nl cx is v s v' s' :
+  compile_ops cx (flatten is) v s = Some (v', s') -> lvl nl cx (flatten is) v = true -> v_unreach v = None ->
+  v_unreach v' <> None -> exists pre b, is = pre ++ [Basic b] /\ is_term b = true.
+Proof.
+  intros Hc Hl Hu Hu'.
+  destruct is as [|i0 r0] eqn:Eis; [cbn in Hc; inversion Hc; subst; contradiction|]. rewrite <- Eis in *.
+  assert (Hne : is <> []) by (rewrite Eis; discriminate).
+  destruct (exists_last Hne) as (pre & x & Ex).
+  assert (Hfn : flatten is <> []).
+  { rewrite Ex, flatten_app. destruct x; cbn; intros X; apply app_eq_nil in X; destruct X; discriminate. }
+  destruct (term_last_ops nl cx (flatten is) v s v' s' Hc Hl (or_introl Hu) Hfn Hu') as (po & b & E & Hb).
+  exists pre, b. split; [|exact Hb]. rewrite Ex. f_equal. f_equal.
+  rewrite Ex, flatten_app in E. cbn [flatten flat_map] in E. rewrite app_nil_r in E.
+  destruct (flatten_instr_last x) as [(b' & ->)|(front & Ef)].
+  - cbn in E. apply app_inj_tail in E. destruct E as [_ E]. inversion E. reflexivity.
+  - rewrite Ef, app_assoc in E. apply app_inj_tail in E. destruct E as [_ E]. discriminate.
+Qed.
+
 (** ** pure facts for a whole structured sequence *)
 Definition ready (s : cstate) (is : list instr) : Prop := c_last s = None \/ ctl_first is.
 
@@ -213,14 +357,15 @@ Qed.
 Lemma isize_pos i : (1 <= isize i)%nat.
 Proof. destruct i; cbn; lia. Qed.
 
-Lemma pure_seq nl cx n : forall is, (lsize is <= n)%nat -> forall s v v' s',
+Lemma pure_seq nl cx n : forall is, (lsize is <= n)%nat -> syn is = true -> forall s v v' s',
   compile_ops cx (flatten is) v s = Some (v', s') -> lvl nl cx (flatten is) v = true ->
   inv nl s v -> v_unreach v = None -> ready s is -> pres nl s s' v'.
 Proof.
-  induction n as [|n IH]; intros is Hn s v v' s' Hc Hl I Hu Hr.
+  induction n as [|n IH]; intros is Hn Hs s v v' s' Hc Hl I Hu Hr.
   { destruct is as [|i r]; [|cbn [lsize] in Hn; pose proof (isize_pos i); lia].
     cbn in Hc. inversion Hc; subst. apply pres_refl. exact I. }
   destruct is as [|i rest]; [cbn in Hc; inversion Hc; subst; apply pres_refl; exact I|].
+  destruct (syn_cons _ _ Hs) as [Hsi Hsr].
   destruct i as [b|bt body|bt body|bt thn els].
   - (* basic *)
     destruct (straight_ok b) eqn:Eb.
@@ -228,7 +373,8 @@ Proof.
       destruct (span (Basic b :: rest)) as [bs tl] eqn:Esp. destruct (span_spec _ _ _ Esp) as (Eis & Hok & Hcf).
       assert (Hne : bs <> []).
       { cbn in Esp. rewrite Eb in Esp. destruct (span rest). inversion Esp. discriminate. }
-      rewrite Eis in Hc, Hl, Hn. rewrite flatten_app, flatten_basics in Hc, Hl.
+      rewrite Eis in Hc, Hl, Hn, Hs. rewrite flatten_app, flatten_basics in Hc, Hl.
+      rewrite syn_app in Hs. apply andb_true_iff in Hs. destruct Hs as [_ Hst].
       destruct (compile_app_inv _ _ _ _ _ _ _ Hc) as (v1 & s1 & Hc1 & Hc2).
       rewrite (lvl_app nl cx _ _ _ _ _ _ Hc1) in Hl. apply andb_true_iff in Hl. destruct Hl as [Hl1 Hl2].
       destruct (seg_pure nl cx bs s v v1 s1 Hok Hc1 Hl1 Hu (i_cwf _ _ _ I)) as (Ebp & W1 & Ectrl & Hu1 & Hlen).
@@ -253,7 +399,10 @@ Proof.
         constructor; auto. apply mono_eq; auto. rewrite O2. eapply bp_sub_refl. apply (i_frames _ _ _ I).
       * (* br *)
         destruct (br_target _ _ _ _ Ev) as (fk & Ek). destruct (bp_target nl s v l fk I Ek) as [(locs & [rr|] & Enth)|(pos & Enth)].
-        -- destruct (target_label_some _ _ _ _ l fk locs rr (i_frames _ _ _ I) Ek Enth) as (t0 & d & _ & -> & _).
+        -- destruct (target_label_any _ _ _ _ l fk locs rr (i_frames _ _ _ I) Ek Enth) as (t0 & _ & [[-> _]|(d & -> & _)]).
+           { destruct (op_br_ret nl cx s v v1 s1 l locs I Hu Enth Ev Eh) as (p & st & Es & Pp & O1 & O2 & O3 & O4 & O5 & O6 & I1 & Hu1 & X1).
+             rewrite (lvl_unreach_nil nl cx rest v1 Hu1 Hl') in Hc'. cbn in Hc'. inversion Hc'; subst v' s'.
+             constructor; auto. apply mono_eq; auto. rewrite O2. eapply bp_sub_update; eauto. apply (i_frames _ _ _ I). }
            destruct (op_br_val nl cx s v v1 s1 l locs d I Hu Enth Ev Eh) as (p & st & Es & Pp & Hd & O1 & O2 & O3 & O4 & O5 & O6 & I1 & Hu1 & X1).
            rewrite (lvl_unreach_nil nl cx rest v1 Hu1 Hl') in Hc'. cbn in Hc'. inversion Hc'; subst v' s'.
            constructor; auto. apply mono_eq; auto. rewrite O2. eapply bp_sub_update; eauto. apply (i_frames _ _ _ I).
@@ -265,7 +414,7 @@ Proof.
            constructor; auto. apply mono_eq; auto. rewrite O2. eapply bp_sub_refl. apply (i_frames _ _ _ I).
       * (* br_if *)
         destruct (br_if_target _ _ _ _ Ev) as (fk & Ek). destruct (bp_target nl s v l fk I Ek) as [(locs & [rr|] & Enth)|(pos & Enth)].
-        -- exfalso. destruct (target_label_some _ _ _ _ l fk locs rr (i_frames _ _ _ I) Ek Enth) as (t0 & d & Fl & _).
+        -- exfalso. destruct (target_label_any _ _ _ _ l fk locs rr (i_frames _ _ _ I) Ek Enth) as (t0 & Fl & _).
            unfold ctl_ok in Hk. rewrite Hu in Hk. unfold label_type in Hk. rewrite Ek, Fl in Hk. discriminate.
         -- destruct (op_br_if nl cx s v v1 s1 l locs I Hu Enth Ev Eh) as (p & st & Es & Pp & O1 & O2 & O3 & O4 & O5 & O6 & I1 & Hu1 & X1).
            assert (P1 : pres nl s s1 v1).
@@ -276,14 +425,18 @@ Proof.
            { constructor; auto. apply mono_eq; auto. rewrite O2. eapply bp_sub_refl. apply (i_frames _ _ _ I). }
            eapply pres_trans; [exact P1|]. eapply (IH rest); eauto. { cbn [lsize isize] in Hn. lia. } left. exact O6.
       * (* return *)
-        unfold ctl_ok in Hk. rewrite Hu in Hk. destruct (cx_return cx) eqn:Hret; [discriminate|].
+        unfold ctl_ok in Hk. rewrite Hu in Hk. destruct (cx_return cx) as [t'|] eqn:Hret.
+        { destruct (last (map (fun f => Some (vf_label f)) (v_ctrls v)) None) as [[t0|]|] eqn:Hne; try discriminate.
+          destruct (op_return_val nl cx s v v1 s1 t0 t' I Hu Hret Hne Ev Eh) as (p & st & Es & Pp & Hpos & O1 & O2 & O3 & O4 & O5 & O6 & I1 & Hu1 & X1).
+          rewrite (lvl_unreach_nil nl cx rest v1 Hu1 Hl') in Hc'. cbn in Hc'. inversion Hc'; subst v' s'.
+          constructor; auto. apply mono_eq; auto. rewrite O2. eapply bp_sub_refl. apply (i_frames _ _ _ I). }
         assert (Hne : last (map (fun f => Some (vf_label f)) (v_ctrls v)) None = Some None).
         { destruct (last (map (fun f => Some (vf_label f)) (v_ctrls v)) None) as [[?|]|]; try discriminate. reflexivity. }
         destruct (op_return nl cx s v v1 s1 I Hu Hret Hne Ev Eh) as (O1 & O2 & O3 & O4 & O5 & O6 & I1 & Hu1 & X1).
         rewrite (lvl_unreach_nil nl cx rest v1 Hu1 Hl') in Hc'. cbn in Hc'. inversion Hc'; subst v' s'.
         constructor; auto. apply mono_eq; auto. rewrite O2. eapply bp_sub_refl. apply (i_frames _ _ _ I).
   - (* block *)
-    rewrite flatten_block in Hc, Hl.
+    rewrite syn_block in Hsi. rewrite flatten_block in Hc, Hl.
     destruct (compile_cons _ _ _ _ _ _ _ Hc) as (va & sa & Ev & Eh & Hc').
     rewrite (reach_of_none v Hu) in Eh. destruct (lvl_cons _ _ _ _ _ _ Hl Ev) as [Hk Hl'].
     unfold ctl_ok in Hk. rewrite Hu in Hk. apply Nat.eqb_eq in Hk. cbn [lsize] in Hn. rewrite isize_block in Hn.
@@ -324,7 +477,7 @@ Proof.
     + pose proof (p_bp _ _ _ _ Pb) as Hb. rewrite A2 in Hb. destruct (bp_sub_cons_inv _ _ _ Hb) as (j' & b'' & Eb' & Hb').
       rewrite E1 in Eb'. inversion Eb'; subst. eapply bp_sub_trans; [exact Hb'|]. apply (p_bp _ _ _ _ Pr).
   - (* loop *)
-    rewrite flatten_loop in Hc, Hl.
+    rewrite syn_loop in Hsi. rewrite flatten_loop in Hc, Hl.
     destruct (compile_cons _ _ _ _ _ _ _ Hc) as (va & sa & Ev & Eh & Hc').
     rewrite (reach_of_none v Hu) in Eh. destruct (lvl_cons _ _ _ _ _ _ Hl Ev) as [Hk Hl'].
     destruct bt; [discriminate|]. unfold ctl_ok in Hk. rewrite Hu in Hk. apply Nat.eqb_eq in Hk.
@@ -347,11 +500,13 @@ Proof.
     + pose proof (p_bp _ _ _ _ Pb) as Hb. rewrite A2 in Hb. destruct (bp_sub_cons_inv _ _ _ Hb) as (j' & b'' & Eb' & Hb').
       rewrite E1 in Eb'. inversion Eb'; subst. eapply bp_sub_trans; [exact Hb'|]. apply (p_bp _ _ _ _ Pr).
   - (* if *)
+    rewrite syn_if in Hsi.
     destruct els as [|e els].
-    + rewrite flatten_if1 in Hc, Hl.
+    + destruct bt; [discriminate|]. apply andb_true_iff in Hsi. destruct Hsi as [Hst Hse].
+      rewrite flatten_if1 in Hc, Hl.
       destruct (compile_cons _ _ _ _ _ _ _ Hc) as (va & sa & Ev & Eh & Hc').
       rewrite (reach_of_none v Hu) in Eh. destruct (lvl_cons _ _ _ _ _ _ Hl Ev) as [Hk Hl'].
-      destruct bt; [discriminate|]. unfold ctl_ok in Hk. rewrite Hu in Hk. apply Nat.eqb_eq in Hk.
+      unfold ctl_ok in Hk. rewrite Hu in Hk. apply Nat.eqb_eq in Hk.
       destruct (op_if nl cx s v va sa I Hu Hk Ev Eh) as (p & Es & Pp & A1 & A2 & A3 & A4 & A5 & A6 & Ia & Hua & Xa).
       destruct (compile_app_inv _ _ _ _ _ _ _ Hc') as (vb & sb & Hcb & Hc'').
       rewrite (lvl_app nl cx _ _ _ _ _ _ Hcb) in Hl'. apply andb_true_iff in Hl'. destruct Hl' as [Hlb Hl''].
@@ -369,14 +524,45 @@ Proof.
       * apply (p_inv _ _ _ _ Pr).
       * pose proof (p_bp _ _ _ _ Pb) as Hb. rewrite A2 in Hb. destruct (bp_sub_cons_inv _ _ _ Hb) as (j' & b'' & Eb' & Hb').
         rewrite E1 in Eb'. inversion Eb'; subst. eapply bp_sub_trans; [exact Hb'|]. apply (p_bp _ _ _ _ Pr).
-    + rewrite flatten_if2 in Hc, Hl.
+    + assert (Hsi' : syn thn = true /\ syn (e :: els) = true) by (destruct bt; apply andb_true_iff in Hsi; exact Hsi).
+      destruct Hsi' as [Hst Hse].
+      rewrite flatten_if2 in Hc, Hl.
       destruct (compile_cons _ _ _ _ _ _ _ Hc) as (va & sa & Ev & Eh & Hc').
       rewrite (reach_of_none v Hu) in Eh. destruct (lvl_cons _ _ _ _ _ _ Hl Ev) as [Hk Hl'].
-      destruct bt; [discriminate|]. unfold ctl_ok in Hk. rewrite Hu in Hk. apply Nat.eqb_eq in Hk.
+      unfold ctl_ok in Hk. rewrite Hu in Hk. apply Nat.eqb_eq in Hk. cbn [lsize] in Hn. rewrite isize_if in Hn.
+      destruct bt as [t|].
+      { (* if-else with a result *)
+        destruct (op_if_val nl cx s v va sa t I Hu Hk Ev Eh) as (p & d & Es & Pp & Hd & A1 & A2 & A3 & Ma & A6 & Ia & Hua & Xa).
+        destruct (compile_app_inv _ _ _ _ _ _ _ Hc') as (vb & sb & Hcb & Hc'').
+        rewrite (lvl_app nl cx _ _ _ _ _ _ Hcb) in Hl'. apply andb_true_iff in Hl'. destruct Hl' as [Hlb Hl''].
+        assert (Pb : pres nl sa sb vb) by (eapply (IH thn); eauto; [lia|left; exact A6]).
+        destruct (compile_cons _ _ _ _ _ _ _ Hc'') as (vc & sc & Evc & Ehc & Hcr).
+        destruct (lvl_cons _ _ _ _ _ _ Hl'' Evc) as [Hke Hlr].
+        pose proof (p_bp _ _ _ _ Pb) as Hb. rewrite A2 in Hb. destruct (bp_sub_head_val _ _ _ _ Hb) as (add & b'' & Ebp & Hb').
+        pose proof (val_top_reachable nl cx sb vb _ _ _ OElse (p_inv _ _ _ _ Pb) Ebp eq_refl Hke) as Hub.
+        rewrite (reach_of_none vb Hub) in Ehc.
+        destruct (op_else_val nl cx sb vb vc sc _ d b'' (p_inv _ _ _ _ Pb) Hub Ebp Evc Ehc)
+          as (first & more & p2 & El & Esb & Pp2 & Hd2 & E2 & Hnth & E5 & E6n & E6c & E8 & Ecur & X3 & Rs & Ic & Huc).
+        destruct (compile_app_inv _ _ _ _ _ _ _ Hcr) as (vd & sd & Hcd & Hcr').
+        rewrite (lvl_app nl cx _ _ _ _ _ _ Hcd) in Hlr. apply andb_true_iff in Hlr. destruct Hlr as [Hld Hlr'].
+        assert (Pd : pres nl sc sd vd) by (eapply (IH (e :: els)); eauto; [lia|left; exact E8]).
+        destruct (compile_cons _ _ _ _ _ _ _ Hcr') as (ve & se & Eve & Ehe & Hcr'').
+        destruct (lvl_cons _ _ _ _ _ _ Hlr' Eve) as [_ Hlr''].
+        pose proof (p_bp _ _ _ _ Pd) as Hd0. rewrite E2 in Hd0. destruct (bp_sub_head_val _ _ _ _ Hd0) as (add2 & b3 & Ebp2 & Hb2).
+        destruct (op_end_val nl cx sd vd ve se _ d b3 (p_inv _ _ _ _ Pd) Ebp2 Eve Ehe)
+          as (tc & G2 & G3 & G5 & G6 & G7 & X5 & Gcur & Rs' & Gnth & Ie & Hue & Hd3 & Hcase).
+        assert (Pr : pres nl se s' v') by (eapply (IH rest); eauto; [lia|left; exact G7]).
+        constructor.
+        - eapply ext_trans; [exact Xa|]. eapply ext_trans; [apply (p_ext _ _ _ _ Pb)|]. eapply ext_trans; [exact X3|].
+          eapply ext_trans; [apply (p_ext _ _ _ _ Pd)|]. eapply ext_trans; [exact X5|apply (p_ext _ _ _ _ Pr)].
+        - eapply mono_trans; [exact Ma|]. eapply mono_trans; [apply (p_mono _ _ _ _ Pb)|].
+          eapply mono_trans; [apply (mono_eq sb sc); auto|]. eapply mono_trans; [apply (p_mono _ _ _ _ Pd)|].
+          eapply mono_trans; [apply (mono_eq sd se); auto|apply (p_mono _ _ _ _ Pr)].
+        - apply (p_inv _ _ _ _ Pr).
+        - eapply bp_sub_trans; [exact Hb'|]. eapply bp_sub_trans; [exact Hb2|]. rewrite <- G2. apply (p_bp _ _ _ _ Pr). }
       destruct (op_if nl cx s v va sa I Hu Hk Ev Eh) as (p & Es & Pp & A1 & A2 & A3 & A4 & A5 & A6 & Ia & Hua & Xa).
       destruct (compile_app_inv _ _ _ _ _ _ _ Hc') as (vb & sb & Hcb & Hc'').
       rewrite (lvl_app nl cx _ _ _ _ _ _ Hcb) in Hl'. apply andb_true_iff in Hl'. destruct Hl' as [Hlb Hl''].
-      cbn [lsize] in Hn. rewrite isize_if in Hn.
       assert (Pb : pres nl sa sb vb) by (eapply (IH thn); eauto; [lia|left; exact A6]).
       destruct (compile_cons _ _ _ _ _ _ _ Hc'') as (vc & sc & Evc & Ehc & Hcr).
       destruct (lvl_cons _ _ _ _ _ _ Hl'' Evc) as [_ Hlr].
